@@ -192,3 +192,79 @@ func VerifToSmpMessage(t VerifTLV) (question string, hasQuestion bool, mpis []*b
 	}
 	return "", false, nil, false
 }
+
+// VerifDecode is decode (envelope removal + base64).
+func VerifDecode(m []byte) ([]byte, bool) {
+	r, err := decode(encodedMessage(m))
+	return r, err == nil
+}
+
+// VerifEncode is Conversation.encode.
+func VerifEncode(m []byte) []byte { return (&Conversation{}).encode(messageWithHeader(m)) }
+
+// VerifB64 exposes b64encode / b64decode.
+func VerifB64Encode(m []byte) []byte { return b64encode(m) }
+
+// VerifB64Decode is b64decode.
+func VerifB64Decode(m []byte) ([]byte, bool) {
+	r, err := b64decode(m)
+	return r, err == nil
+}
+
+// VerifFragmentPrefix is otrVersion.fragmentPrefix.
+func VerifFragmentPrefix(v, n, total int, itags, itagr uint32) []byte {
+	return verifVersion(v).fragmentPrefix(n, total, itags, itagr)
+}
+
+// VerifFragment is Conversation.fragment on a conversation with the given version and tags.
+func VerifFragment(v int, ourTag, theirTag uint32, data []byte, fraglen uint16) [][]byte {
+	c := &Conversation{version: verifVersion(v), ourInstanceTag: ourTag, theirInstanceTag: theirTag}
+	return Bytes(c.fragment(encodedMessage(data), fraglen))
+}
+
+// VerifParseFragment is parseFragment.
+func VerifParseFragment(body []byte) (data []byte, ix, l uint16, ok bool) { return parseFragment(body) }
+
+// VerifBytesToUint16 is bytesToUint16.
+func VerifBytesToUint16(d []byte) (uint16, bool) {
+	r, err := bytesToUint16(d)
+	return r, err == nil
+}
+
+// VerifParseItag is parseItag.
+func VerifParseItag(d []byte) (uint32, bool) {
+	r, err := parseItag(d)
+	return r, err == nil
+}
+
+// VerifGuessMessageType is guessMessageType.
+func VerifGuessMessageType(m []byte) int { return int(guessMessageType(m)) }
+
+// VerifParseQuery is parseOTRQueryMessage.
+func VerifParseQuery(m []byte) []int { return parseOTRQueryMessage(ValidMessage(m)) }
+
+// VerifQueryVersions is extractVersionsFromQueryMessage.
+func VerifQueryVersions(p int, m []byte) int {
+	return extractVersionsFromQueryMessage(policies(p), ValidMessage(m))
+}
+
+// VerifQueryMessage is Conversation.QueryMessage for a policy bit set.
+func VerifQueryMessage(p int, friendly string) []byte {
+	c := &Conversation{Policies: policies(p), friendlyQueryMessage: friendly}
+	return c.QueryMessage()
+}
+
+// VerifGenWhitespaceTag is genWhitespaceTag.
+func VerifGenWhitespaceTag(p int) []byte { return makeCopy(genWhitespaceTag(policies(p))) }
+
+// VerifExtractWhitespaceTag is extractWhitespaceTag.
+func VerifExtractWhitespaceTag(m []byte) ([]byte, int) {
+	p, v := extractWhitespaceTag(ValidMessage(makeCopy(m)))
+	return p, v
+}
+
+// VerifConvertToWhitespace is convertToWhitespace.
+func VerifConvertToWhitespace(s string) []byte { return convertToWhitespace(s) }
+
+// VerifSetPolicies sets the policy bit set of a conversation.
+func VerifSetPolicies(c *Conversation, p int) { c.Policies = policies(p) }
